@@ -218,6 +218,8 @@ func (d *decoder) parseDatatype(b []byte, at uint64, depth int) (*Datatype, int,
 		}
 		c.skip(used)
 		t.Base = bt
+		membersAt := c.p
+		plausible := true
 		for i := 0; i < n && !c.bad; i++ {
 			start := c.p
 			name, term := c.cstr()
@@ -229,10 +231,36 @@ func (d *decoder) parseDatatype(b []byte, at uint64, depth int) (*Datatype, int,
 			if t.Version < 3 {
 				c.skip(pad8(c.p-start) - (c.p - start))
 			}
+			if name == "" {
+				plausible = false
+			}
 			t.EnumNames = append(t.EnumNames, name)
 		}
 		for i := 0; i < n && !c.bad; i++ {
 			t.EnumValues = append(t.EnumValues, c.bytes(int(bt.Size)))
+		}
+		if (c.bad || !plausible) && n > 0 {
+			// Alternative seen in the wild: each member is {name padded to a
+			// multiple of 8, value}, interleaved, whatever the version says.
+			ac := &cur{b: c.b, p: membersAt}
+			var names []string
+			var vals [][]byte
+			for i := 0; i < n && !ac.bad; i++ {
+				start := ac.p
+				name, term := ac.cstr()
+				if !term || name == "" {
+					ac.bad = true
+					break
+				}
+				ac.skip(pad8(ac.p-start) - (ac.p - start))
+				names = append(names, name)
+				vals = append(vals, ac.bytes(int(bt.Size)))
+			}
+			if !ac.bad {
+				d.finding("datatype-enum-layout", at, "version-%d enumeration stores members as interleaved {8-byte padded name, value} pairs; the specification stores all names (unpadded in version 3) followed by all values", t.Version)
+				t.EnumNames, t.EnumValues = names, vals
+				c.p, c.bad = ac.p, false
+			}
 		}
 		if bt.Size != t.Size {
 			d.finding("datatype-enum-size", at, "enumeration size %d differs from base type size %d", t.Size, bt.Size)
